@@ -2,19 +2,34 @@
 (***************************************************************************)
 (* One shard of the time-series store, seen as a stack of layers:          *)
 (*   active memtable  >  out-of-order files (newest first)  >  ordered     *)
-(*   files.                                                                *)
+(*   files, kept per measurement (every data file belongs to exactly one   *)
+(*   measurement; a flush that carries rows of several measurements writes *)
+(*   one file per measurement, all with the same sequence number).         *)
 (* Actions are the engine's reorganisation entry points:                   *)
 (*   Write        = shard.WriteRows        (engine/shard.go)               *)
 (*   Flush        = shard.ForceFlush -> tsMemTableImpl.FlushChunks         *)
 (*                  (engine/mutable/ts_table.go: SplitRecordByTime by the  *)
-(*                  Sequencer's per-series last flush time, only when an   *)
-(*                  ordered file already exists)                           *)
-(*   LevelCompact = MmsTables.LevelCompact (adjacent ordered files)        *)
-(*   FullCompact  = MmsTables.FullCompact                                  *)
+(*                  Sequencer's per-series last flush time, only when the  *)
+(*                  measurement already has an ordered file)               *)
+(*   LevelCompact = MmsTables.LevelCompact: LevelPlan / mmsPlan group, per *)
+(*                  measurement, Group consecutive ordered files of the    *)
+(*                  level; every group is compacted by the method of the   *)
+(*                  action (compactToLevel: streaming = StreamIterators,   *)
+(*                  non-streaming = ChunkIterators) into one file of the   *)
+(*                  next level                                             *)
+(*   FullCompact  = MmsTables.FullCompact (all ordered files of every      *)
+(*                  measurement with at least two of them)                 *)
 (*   MergeOOO     = MmsTables.MergeOutOfOrder                              *)
-(*   Reopen       = Close (flushes) + Open                                 *)
+(*   DownSample   = Engine.StartDownSampleTask -> shard.StartDownSample:   *)
+(*                  every ordered file is replaced by its per-window       *)
+(*                  aggregate (one file out per file in)                   *)
+(*   Reopen       = Close + Open                                           *)
 (* Property C02: what a query reads (Contents) equals the last-write-wins  *)
 (* replay of acknowledged writes (lww), in every reachable layout.         *)
+(* Property C03 (first half): LevelCompact, FullCompact and MergeOOO leave *)
+(* lww - the expected observation - unchanged, whatever the method, the    *)
+(* group size, the level and the schemas of the input files; DownSample    *)
+(* replaces it by its aggregate, exactly once.                             *)
 (***************************************************************************)
 EXTENDS Integers, Sequences, FiniteSets, TLC, SequencesExt, FiniteSetsExt
 
@@ -24,28 +39,38 @@ CONSTANTS Series,      \* set of series names (strings)
           MaxBatch,    \* rows per write batch
           Depth,       \* number of actions per behaviour
           MaxWrites,   \* bound on Write actions
-          MaxFiles,    \* bound on files per kind (keeps the space finite)
-          Dev          \* deviations (mutation seeds for self-tests); {} = the design
+          MaxFiles,    \* bound on files per kind and measurement (keeps the space finite)
+          Dev,         \* deviations (mutation seeds for self-tests); {} = the design
+          Mst2,        \* the series that live in the second measurement "m2" (the others live in "m")
+          Group,       \* LeveLMinGroupFiles: number of files in a level-compaction group
+          Methods,     \* compaction methods offered to LevelCompact / FullCompact
+          DSIntervals  \* down-sample intervals offered to DownSample ({} = no down-sampling)
 
 VARIABLES active,  \* Table: rows of the active memtable
-          ord,     \* sequence of ordered files  [seq, lvl, data]
-          unord,   \* sequence of out-of-order files [seq, data]
+          ord,     \* [Msts -> sequence of ordered files  [seq, lvl, data]]
+          unord,   \* [Msts -> sequence of out-of-order files [seq, data]]
           nseq,    \* next file sequence number
           nv,      \* next value to be written (every written cell gets a unique value)
           nw,      \* number of writes so far
-          lww,     \* oracle: last-write-wins replay of acknowledged writes
+          lww,     \* oracle: last-write-wins replay of acknowledged writes (aggregated once down-sampled)
+          dsl,     \* 0 = raw shard; I > 0 = down-sampled with interval I
           hist     \* history of actions with expected observation (export only)
 
-vars == <<active, ord, unord, nseq, nv, nw, lww, hist>>
-view == <<active, ord, unord, nseq, nv, nw, lww>>
+vars == <<active, ord, unord, nseq, nv, nw, lww, dsl, hist>>
+view == <<active, ord, unord, nseq, nv, nw, lww, dsl>>
 
 Key   == Series \X Times
 NoRow == [f \in Fields |-> 0]                 \* 0 = null
 Table == [Key -> [Fields -> Nat]]
 Empty == [k \in Key |-> NoRow]
 
+MstOf(s) == IF s \in Mst2 THEN "m2" ELSE "m"
+Msts     == {MstOf(s) : s \in Series}
+MstList  == IF Msts = {"m"} THEN <<"m">> ELSE IF Msts = {"m2"} THEN <<"m2">> ELSE <<"m", "m2">>
+
 IsEmpty(t) == \A k \in Key : t[k] = NoRow
 Present(t) == {k \in Key : t[k] # NoRow}
+KeysOf(t, m) == {k \in Present(t) : MstOf(k[1]) = m}
 
 \* field-wise replace: the newer layer wins for every field it carries
 \* (TLCEval forces TLC to evaluate the function eagerly; without it nested merges are re-evaluated
@@ -58,18 +83,24 @@ OverAll(ts) == IF ts = <<>> THEN Empty ELSE Over(Head(ts), OverAll(Tail(ts)))
 
 Datas(files) == [i \in 1..Len(files) |-> files[i].data]
 
+RECURSIVE ConcatM(_, _)
+ConcatM(fm, ms) == IF ms = <<>> THEN <<>> ELSE fm[Head(ms)] \o ConcatM(fm, Tail(ms))
+\* all files of a kind (keys of different measurements are disjoint, so their relative order is immaterial)
+AllOrd   == ConcatM(ord, MstList)
+AllUnord == ConcatM(unord, MstList)
+
 \* What a query sees: active > unordered (newest first) > ordered (newest first).
-LayerSeq == <<active>> \o Reverse(Datas(unord)) \o Reverse(Datas(ord))
+LayerSeq == <<active>> \o Reverse(Datas(AllUnord)) \o Reverse(Datas(AllOrd))
 Contents ==
   IF "ordered_over_unordered" \in Dev
-    THEN OverAll(<<active>> \o Reverse(Datas(ord)) \o Reverse(Datas(unord)))
+    THEN OverAll(<<active>> \o Reverse(Datas(AllOrd)) \o Reverse(Datas(AllUnord)))
     ELSE OverAll(LayerSeq)
 
 SeriesTimes(t, s) == {k[2] : k \in {kk \in Present(t) : kk[1] = s}}
 MaxT(t, s) == IF SeriesTimes(t, s) = {} THEN -1 ELSE Max(SeriesTimes(t, s))
 MinT(t, s) == IF SeriesTimes(t, s) = {} THEN -1 ELSE Min(SeriesTimes(t, s))
 
-OrdAll == OverAll(Reverse(Datas(ord)))
+OrdAll == OverAll(Reverse(Datas(AllOrd)))
 \* Sequencer: per series, the largest timestamp in any ordered file (-1 = none)
 LastFlush(s) == MaxT(OrdAll, s)
 
@@ -85,131 +116,247 @@ ApplyRows(t, rows, v) ==
   ELSE ApplyRows(Over(RowTable(Head(rows), v), t), Tail(rows), v + 1)
 
 RowsJson(rows, v) == [i \in 1..Len(rows) |->
-     [s |-> rows[i].k[1], t |-> rows[i].k[2], fs |-> SetToSeq(rows[i].fs), v |-> v + i - 1]]
+     [s |-> rows[i].k[1], m |-> MstOf(rows[i].k[1]), t |-> rows[i].k[2], fs |-> SetToSeq(rows[i].fs), v |-> v + i - 1]]
 
 \* expected observation = full contents, as a sequence of rows
 Obs(t) == LET ks == SetToSeq(Present(t))
-          IN [i \in 1..Len(ks) |-> [s |-> ks[i][1], t |-> ks[i][2],
+          IN [i \in 1..Len(ks) |-> [s |-> ks[i][1], m |-> MstOf(ks[i][1]), t |-> ks[i][2],
                                     v |-> [f \in Fields |-> t[ks[i]][f]]]]
 
-Shape == [no |-> Len(ord), nu |-> Len(unord), mem |-> Cardinality(Present(active))]
+RECURSIVE SumLen(_, _)
+SumLen(fm, ms) == IF ms = <<>> THEN 0 ELSE Len(fm[Head(ms)]) + SumLen(fm, Tail(ms))
+Shape == [no |-> SumLen(ord, MstList), nu |-> SumLen(unord, MstList), mem |-> Cardinality(Present(active))]
 
 Log(a, args) == hist' = Append(hist, [a |-> a, args |-> args, exp |-> Obs(lww'), shape |-> Shape'])
 
+\* scripted generation (LayoutMC): the k-th action of a behaviour must be of the k-th kind of Sched
+Sched == <<>>
+Allowed(kind) == Sched = <<>> \/ (Len(hist) < Len(Sched) /\ Sched[Len(hist) + 1] = kind)
+
 -----------------------------------------------------------------------------
-Init == /\ active = Empty /\ ord = <<>> /\ unord = <<>> /\ nseq = 1 /\ nv = 1 /\ nw = 0
-        /\ lww = Empty /\ hist = <<>>
+Init == /\ active = Empty /\ ord = [m \in Msts |-> <<>>] /\ unord = [m \in Msts |-> <<>>]
+        /\ nseq = 1 /\ nv = 1 /\ nw = 0 /\ lww = Empty /\ dsl = 0 /\ hist = <<>>
 
 Write(rows) ==
-  /\ nw < MaxWrites
+  /\ nw < MaxWrites /\ dsl = 0
   /\ active' = ApplyRows(active, rows, nv)
   /\ lww'    = ApplyRows(lww, rows, nv)
   /\ nv' = nv + Len(rows)
   /\ nw' = nw + 1
-  /\ UNCHANGED <<ord, unord, nseq>>
+  /\ UNCHANGED <<ord, unord, nseq, dsl>>
   /\ Log("Write", RowsJson(rows, nv))
 
 RestrictT(t, keys) == TLCEval([k \in Key |-> IF k \in keys THEN t[k] ELSE NoRow])
 
+\* rows of measurement m that go to the ordered file of a flush
+OKeys(m) == LET hasOrd == ord[m] # <<>>
+            IN IF "flush_split_ge" \in Dev
+                 THEN {k \in KeysOf(active, m) : (~hasOrd) \/ k[2] >= LastFlush(k[1])}
+                 ELSE {k \in KeysOf(active, m) : (~hasOrd) \/ k[2] > LastFlush(k[1])}
+UKeys(m) == KeysOf(active, m) \ OKeys(m)
+
 FlushEffect ==
-  LET hasOrd  == ord # <<>>
-      okeys   == {k \in Present(active) : (~hasOrd) \/ k[2] > LastFlush(k[1])}
-      ukeys   == Present(active) \ okeys
-      okeys2  == IF "flush_split_ge" \in Dev
-                   THEN {k \in Present(active) : (~hasOrd) \/ k[2] >= LastFlush(k[1])}
-                   ELSE okeys
-      ofile   == [seq |-> nseq, lvl |-> 0, data |-> RestrictT(active, okeys2)]
-      ufile   == [seq |-> nseq, data |-> RestrictT(active, Present(active) \ okeys2)]
-  IN /\ ord'   = IF okeys2 # {} THEN Append(ord, ofile) ELSE ord
-     /\ unord' = IF Present(active) \ okeys2 # {} THEN Append(unord, ufile) ELSE unord
-     /\ active' = Empty
-     /\ nseq' = nseq + 1
+  /\ ord'   = [m \in Msts |-> IF OKeys(m) # {}
+                                THEN Append(ord[m], [seq |-> nseq, lvl |-> 0, data |-> RestrictT(active, OKeys(m))])
+                                ELSE ord[m]]
+  /\ unord' = [m \in Msts |-> IF UKeys(m) # {}
+                                THEN Append(unord[m], [seq |-> nseq, data |-> RestrictT(active, UKeys(m))])
+                                ELSE unord[m]]
+  /\ active' = Empty
+  /\ nseq' = nseq + 1
+
+Room == \A m \in Msts : Len(ord[m]) < MaxFiles /\ Len(unord[m]) < MaxFiles
 
 Flush ==
-  /\ ~IsEmpty(active)
-  /\ Len(ord) < MaxFiles /\ Len(unord) < MaxFiles
+  /\ ~IsEmpty(active) /\ dsl = 0
+  /\ Room
   /\ FlushEffect
-  /\ UNCHANGED <<nv, nw, lww>>
+  /\ UNCHANGED <<nv, nw, lww, dsl>>
   /\ Log("Flush", <<>>)
 
-\* MmsTables.LevelCompact(level): mmsPlan scans the ordered files left to right and groups
-\* consecutive files of that level (LeveLMinGroupFiles[level] of them; the harness sets it to 2);
-\* each group becomes one file of the next level carrying the first file's sequence number.
-RECURSIVE PairUp(_, _)
-PairUp(fs, l) ==
-  IF Len(fs) < 2 THEN fs
-  ELSE IF fs[1].lvl = l /\ fs[2].lvl = l
-       THEN << [seq |-> fs[1].seq, lvl |-> l + 1,
-                data |-> IF "compact_drops_newer" \in Dev THEN fs[1].data
-                         ELSE Over(fs[2].data, fs[1].data)] >> \o PairUp(SubSeq(fs, 3, Len(fs)), l)
-       ELSE << fs[1] >> \o PairUp(Tail(fs), l)
+\* One compaction: the inputs (oldest first) become one file that carries the first input's sequence
+\* number. Both methods must produce the field-wise merge of the inputs, the newer input winning.
+Merged(run, meth) ==
+  IF "compact_drops_newer" \in Dev THEN run[1].data
+  ELSE IF "stream_drops_late_column" \in Dev /\ meth = "stream"
+    \* a column that the first input does not carry at all is lost by the streaming method
+    THEN LET all  == OverAll(Reverse(Datas(run)))
+             cols == {f \in Fields : \E k \in Key : run[1].data[k][f] # 0}
+         IN TLCEval([k \in Key |-> [f \in Fields |-> IF f \in cols THEN all[k][f] ELSE 0]])
+    ELSE OverAll(Reverse(Datas(run)))
 
-LevelCompact(l) ==
-  /\ PairUp(ord, l) # ord
-  /\ ord' = PairUp(ord, l)
-  /\ UNCHANGED <<active, unord, nseq, nv, nw, lww>>
-  /\ Log("LevelCompact", <<l>>)
+\* MmsTables.LevelCompact(level): mmsPlan scans the ordered files of a measurement left to right and
+\* collects consecutive files of that level; as soon as Group of them are collected they form a group
+\* (LeveLMinGroupFiles[level]; the harness sets it to Group); a file of another level ends the run. The
+\* file list stays sorted by sequence number.
+RECURSIVE Plan(_, _, _, _, _)
+BySeq(fs) == SortSeq(fs, LAMBDA x, y : x.seq < y.seq)
+Plan(fs, l, run, skipped, meth) ==
+  IF Len(run) = Group
+    THEN << [seq |-> run[1].seq, lvl |-> l + 1, data |-> Merged(run, meth)] >> \o skipped \o Plan(fs, l, <<>>, <<>>, meth)
+  ELSE IF fs = <<>> THEN BySeq(run \o skipped)
+  ELSE IF Head(fs).lvl = l
+    THEN IF "group_skips_one" \in Dev /\ Len(run) = 1 /\ skipped = <<>>
+           \* the second file of a run is passed over: the group is not made of adjacent files
+           THEN Plan(Tail(fs), l, run, << Head(fs) >>, meth)
+           ELSE Plan(Tail(fs), l, Append(run, Head(fs)), skipped, meth)
+  ELSE BySeq(run \o skipped) \o << Head(fs) >> \o Plan(Tail(fs), l, <<>>, <<>>, meth)
+PlanOf(m, l, meth) == Plan(ord[m], l, <<>>, <<>>, meth)
 
-FullCompact ==
-  /\ Len(ord) >= 2
-  /\ ord' = << [seq |-> ord[1].seq, lvl |-> ord[Len(ord)].lvl + 1, data |-> OrdAll] >>
-  /\ UNCHANGED <<active, unord, nseq, nv, nw, lww>>
-  /\ Log("FullCompact", <<>>)
+LevelCompact(l, meth) ==
+  /\ dsl = 0
+  /\ \E m \in Msts : PlanOf(m, l, meth) # ord[m]
+  /\ ord' = [m \in Msts |-> PlanOf(m, l, meth)]
+  /\ UNCHANGED <<active, unord, nseq, nv, nw, lww, dsl>>
+  /\ Log("LevelCompact", <<l, meth, Group>>)
 
-\* all out-of-order files are merged into the ordered files that cover their rows
-UnordAll == OverAll(Reverse(Datas(unord)))
-Target(k) == CHOOSE i \in 1..Len(ord) :
-                /\ MaxT(ord[i].data, k[1]) >= k[2]
-                /\ \A j \in 1..(i-1) : MaxT(ord[j].data, k[1]) < k[2]
+MaxLvl(fs) == Max({fs[i].lvl : i \in 1..Len(fs)})
+
+FullCompact(meth) ==
+  /\ dsl = 0
+  /\ \E m \in Msts : Len(ord[m]) >= 2
+  /\ ord' = [m \in Msts |-> IF Len(ord[m]) >= 2
+                              THEN << [seq |-> ord[m][1].seq, lvl |-> MaxLvl(ord[m]) + 1, data |-> Merged(ord[m], meth)] >>
+                              ELSE ord[m]]
+  /\ UNCHANGED <<active, unord, nseq, nv, nw, lww, dsl>>
+  /\ Log("FullCompact", <<meth>>)
+
+\* all out-of-order files of a measurement are merged into the ordered files that cover their rows;
+\* at equal timestamps the out-of-order value (written later) wins, field by field
+UnordAllOf(m) == OverAll(Reverse(Datas(unord[m])))
+Target(m, k) == CHOOSE i \in 1..Len(ord[m]) :
+                  /\ MaxT(ord[m][i].data, k[1]) >= k[2]
+                  /\ \A j \in 1..(i-1) : MaxT(ord[m][j].data, k[1]) < k[2]
+MergeInto(m) ==
+  LET u == UnordAllOf(m)
+  IN [i \in 1..Len(ord[m]) |->
+        LET part == RestrictT(u, {k \in Present(u) : Target(m, k) = i})
+        IN [ord[m][i] EXCEPT !.data = IF "merge_ordered_wins" \in Dev THEN Over(@, part) ELSE Over(part, @)]]
+Mergeable(m) == unord[m] # <<>> /\ ord[m] # <<>>
 MergeOOO ==
-  /\ unord # <<>> /\ ord # <<>>
-  /\ ord' = [i \in 1..Len(ord) |->
-               [ord[i] EXCEPT !.data =
-                   Over(RestrictT(UnordAll, {k \in Present(UnordAll) : Target(k) = i}), @)]]
-  /\ unord' = <<>>
-  /\ UNCHANGED <<active, nseq, nv, nw, lww>>
+  /\ dsl = 0
+  /\ \E m \in Msts : Mergeable(m)
+  /\ ord'   = [m \in Msts |-> IF Mergeable(m) THEN MergeInto(m) ELSE ord[m]]
+  /\ unord' = [m \in Msts |-> IF Mergeable(m) THEN <<>> ELSE unord[m]]
+  /\ UNCHANGED <<active, nseq, nv, nw, lww, dsl>>
   /\ Log("MergeOOO", <<>>)
+
+-----------------------------------------------------------------------------
+\* Down-sampling (shard.StartDownSample). Time is cut into windows [w, w + I) aligned at 0; for every
+\* series and window the rows of ONE FILE are replaced by one row at time w whose field f carries the
+\* aggregate calls[f] of the non-null values of f in the window (null if there is none). The stored column
+\* is named <call>_<field>; the raw fields are gone. Values are unique write counters, so first / last /
+\* min / max select one of them and count yields a small number.
+Calls == {"first", "last", "min", "max", "count"}
+WinStart(t, I) == (t \div I) * I
+WinVals(d, s, w, I, f) == {<<t, d[<<s, t>>][f]>> : t \in {x \in Times : WinStart(x, I) = w /\ d[<<s, x>>][f] # 0}}
+Agg(c, vals) ==
+  IF vals = {} THEN 0
+  ELSE LET ts == {p[1] : p \in vals}
+           vs == {p[2] : p \in vals}
+       IN CASE c = "first" -> (CHOOSE p \in vals : p[1] = Min(ts))[2]
+            [] c = "last"  -> (CHOOSE p \in vals : p[1] = Max(ts))[2]
+            [] c = "min"   -> Min(vs)
+            [] c = "max"   -> Max(vs)
+            [] c = "count" -> Cardinality(vals)
+DSTable(d, I, calls) ==
+  TLCEval([k \in Key |-> [f \in Fields |->
+     IF WinStart(k[2], I) = k[2] THEN Agg(calls[f], WinVals(d, k[1], k[2], I, f)) ELSE 0]])
+\* what the down-sample writes for one file (the design: its aggregate)
+DSFile(d, I, calls) ==
+  IF "ds_window_end_inclusive" \in Dev
+    THEN TLCEval([k \in Key |-> [f \in Fields |->
+           IF WinStart(k[2], I) = k[2]
+             THEN Agg(calls[f], WinVals(d, k[1], k[2], I, f)
+                                \cup {<<t, d[<<k[1], t>>][f]>> : t \in {x \in Times : x = k[2] + I /\ d[<<k[1], x>>][f] # 0}})
+             ELSE 0]])
+    ELSE DSTable(d, I, calls)
+
+Windows(d, s, I) == {WinStart(t, I) : t \in SeriesTimes(d, s)}
+\* the aggregation is done file by file: two files of a measurement that hold rows of the same series in
+\* the same window would both produce a row for that window
+NoSharedWindow(I) ==
+  \A m \in Msts : \A i, j \in 1..Len(ord[m]) : \A s \in Series :
+     i < j => Windows(ord[m][i].data, s, I) \cap Windows(ord[m][j].data, s, I) = {}
+
+CallsJson(calls) == [f \in Fields |-> calls[f]]
+
+DownSample(I, calls) ==
+  /\ dsl = 0 /\ I \in DSIntervals /\ WinStart(Min(Times), I) \in Times
+  /\ IsEmpty(active) /\ \A m \in Msts : unord[m] = <<>>
+  /\ \E m \in Msts : ord[m] # <<>>
+  /\ ("ds_shared_window" \in Dev \/ NoSharedWindow(I))
+  /\ ord' = [m \in Msts |-> [i \in 1..Len(ord[m]) |->
+                [ord[m][i] EXCEPT !.data = DSFile(@, I, calls), !.seq = nseq + i - 1]]]
+  /\ nseq' = nseq + MaxFiles
+  /\ lww' = DSTable(lww, I, calls)
+  /\ dsl' = I
+  /\ UNCHANGED <<active, unord, nv, nw>>
+  /\ Log("DownSample", <<I, CallsJson(calls)>>)
 
 \* clean restart: Close flushes the memtable, Open rebuilds the Sequencer from ordered files
 Reopen ==
-  /\ Len(ord) < MaxFiles /\ Len(unord) < MaxFiles
+  /\ Room
   /\ IF IsEmpty(active) THEN UNCHANGED <<active, ord, unord, nseq>> ELSE FlushEffect
-  /\ UNCHANGED <<nv, nw, lww>>
+  /\ UNCHANGED <<nv, nw, lww, dsl>>
   /\ Log("Reopen", <<>>)
+
+\* scripted generation only: a scheduled kind that the state does not enable is passed over (a "Skip" entry of
+\* the history: the replay does nothing and compares the reads once more)
+CanDo(kind) ==
+  CASE kind = "W" -> nw < MaxWrites /\ dsl = 0
+    [] kind = "F" -> ~IsEmpty(active) /\ dsl = 0 /\ Room
+    [] kind = "L" -> dsl = 0 /\ \E l \in 0..MaxFiles : \E m \in Msts : PlanOf(m, l, "any") # ord[m]
+    [] kind = "C" -> dsl = 0 /\ \E m \in Msts : Len(ord[m]) >= 2
+    [] kind = "M" -> dsl = 0 /\ \E m \in Msts : Mergeable(m)
+    [] kind = "D" -> /\ dsl = 0 /\ IsEmpty(active) /\ \A m \in Msts : unord[m] = <<>>
+                     /\ \E m \in Msts : ord[m] # <<>>
+                     /\ \E I \in DSIntervals : WinStart(Min(Times), I) \in Times /\ NoSharedWindow(I)
+    [] kind = "R" -> Room
+    [] OTHER -> FALSE
+Skip ==
+  /\ Sched # <<>> /\ Len(hist) < Len(Sched) /\ ~CanDo(Sched[Len(hist) + 1])
+  /\ UNCHANGED <<active, ord, unord, nseq, nv, nw, lww, dsl>>
+  /\ Log("Skip", <<>>)
 
 Batches == UNION {[1..n -> RowShape] : n \in 1..MaxBatch}
 \* the batches offered to Write in one step; simulation configs override this with a random sample
 BatchChoices == Batches
+\* the call assignments offered to DownSample in one step; simulation configs override this
+CallChoices == [Fields -> Calls]
 
 Next ==
   /\ Len(hist) < Depth
-  /\ \/ \E b \in BatchChoices : Write(b)
-     \/ Flush
-     \/ \E l \in 0..MaxFiles : LevelCompact(l)
-     \/ FullCompact
-     \/ MergeOOO
-     \/ Reopen
+  /\ \/ Allowed("W") /\ \E b \in BatchChoices : Write(b)
+     \/ Allowed("F") /\ Flush
+     \/ Allowed("L") /\ \E l \in 0..MaxFiles : \E meth \in Methods : LevelCompact(l, meth)
+     \/ Allowed("C") /\ \E meth \in Methods : FullCompact(meth)
+     \/ Allowed("M") /\ MergeOOO
+     \/ Allowed("D") /\ \E I \in DSIntervals : \E c \in CallChoices : DownSample(I, c)
+     \/ Allowed("R") /\ Reopen
+     \/ Skip
 
 Spec == Init /\ [][Next]_vars
 
 -----------------------------------------------------------------------------
 TypeOK == /\ active \in Table /\ lww \in Table
-          /\ \A i \in 1..Len(ord) : ord[i].data \in Table
-          /\ \A i \in 1..Len(unord) : unord[i].data \in Table
+          /\ \A m \in Msts : \A i \in 1..Len(ord[m]) : ord[m][i].data \in Table
+          /\ \A m \in Msts : \A i \in 1..Len(unord[m]) : unord[m][i].data \in Table
+          /\ \A m \in Msts : \A i \in 1..Len(ord[m]) : \A k \in Present(ord[m][i].data) : MstOf(k[1]) = m
 
-\* C02: reads equal the last-write-wins replay, in any layout
+\* C02: reads equal the last-write-wins replay, in any layout (C03: ... and its aggregate after a down-sample)
 ReadEqLWW == Contents = lww
 
 \* per series the ordered files' time ranges strictly increase with position
 OrderedDisjoint ==
-  \A i, j \in 1..Len(ord) : \A s \in Series :
-     (i < j /\ SeriesTimes(ord[i].data, s) # {} /\ SeriesTimes(ord[j].data, s) # {})
-        => MaxT(ord[i].data, s) < MinT(ord[j].data, s)
+  \A m \in Msts : \A i, j \in 1..Len(ord[m]) : \A s \in Series :
+     (i < j /\ SeriesTimes(ord[m][i].data, s) # {} /\ SeriesTimes(ord[m][j].data, s) # {})
+        => MaxT(ord[m][i].data, s) < MinT(ord[m][j].data, s)
 
 \* an out-of-order row never lies beyond the ordered data of its series
 UnordBehind ==
-  \A i \in 1..Len(unord) : \A k \in Present(unord[i].data) : k[2] <= LastFlush(k[1])
+  \A m \in Msts : \A i \in 1..Len(unord[m]) : \A k \in Present(unord[m][i].data) : k[2] <= LastFlush(k[1])
 
-NoEmptyFile == /\ \A i \in 1..Len(ord) : ~IsEmpty(ord[i].data)
-               /\ \A i \in 1..Len(unord) : ~IsEmpty(unord[i].data)
+NoEmptyFile == /\ \A m \in Msts : \A i \in 1..Len(ord[m]) : ~IsEmpty(ord[m][i].data)
+               /\ \A m \in Msts : \A i \in 1..Len(unord[m]) : ~IsEmpty(unord[m][i].data)
 =============================================================================
